@@ -77,6 +77,7 @@ type h2Listener struct {
 	ip     net.IP
 	unspec bool
 	vetoed []net.IP
+	vetoedFor [][2]net.IP // (client IP, peer IP): refused for that client only
 	pc     *simPC
 	ln     *simListener
 }
@@ -260,9 +261,21 @@ func newH2WorldWith(vt *vhT, cfg ServerConfig, lis []*h2Listener, withAuth bool,
 	for i, l := range lis {
 		lid := i
 		l := l
-		ph := func(_ net.Addr, peerIP net.IP) bool {
+		ph := func(client net.Addr, peerIP net.IP) bool {
 			for _, v := range l.vetoed {
 				if v.Equal(peerIP) {
+					return false
+				}
+			}
+			var cip net.IP
+			switch a := client.(type) {
+			case *net.UDPAddr:
+				cip = a.IP
+			case *net.TCPAddr:
+				cip = a.IP
+			}
+			for _, v := range l.vetoedFor {
+				if v[0].Equal(cip) && v[1].Equal(peerIP) {
 					return false
 				}
 			}
